@@ -1,5 +1,6 @@
 import DigModel.Proofs.Rollback
 import DigModel.Proofs.DeferSim
+import DigModel.Proofs.DecoCommute
 /-
   C16 — Registration order and verification timing do not matter (verification-timing half).
 
@@ -28,8 +29,15 @@ import DigModel.Proofs.DeferSim
   * `C16_flags_only`: the verification loop changes nothing but those flags (`Work` is preserved by it), so the
     deferred and the eager container differ in flags only as long as no check fails.
   The permutation half (any order of an accepted block, scope creation earlier or later) is checked by the
-  metamorphic twins on the real library and by the correspondence; it is not proved (it needs a simulation up to a
-  renaming of node indices through the whole resolver).
+  metamorphic twins on the real library and by the correspondence.  Proved is one slice of it,
+  `C16_provide_and_decorate_commute_partial` (`Proofs/DecoCommute.lean`): Provide neither reads nor writes what Decorate
+  registers (`dtr_apiProvide`: it commutes with any replacement of the decorator tables and of the list of decorator
+  nodes, through parsing, registration, the verification loop and every roll-back), so a Provide and an adjacent
+  Decorate whose decorator takes positional parameters only (its parse adds no graph node) can be swapped — accepted or
+  rejected, whatever the scopes and options: the same two answers and the very same container, hence the same
+  outcome of everything that follows.  Swapping two Provides, or a Decorate with value-group parameters, changes node
+  indices and the order of graph holders; that needs a simulation up to a renaming through the whole resolver and is
+  not proved.
 -/
 namespace Dig.C16
 
@@ -95,7 +103,32 @@ theorem C16_resolver_ignores_flags (g : Nat → Bool) (ctx : Ctx) (fuel : Nat) (
 example (p : Program) (h : ∀ r ∈ (runProgram p).2, r.v = .ok) : ∀ r ∈ (runProgram p).2, ∀ e, r.v = .err e → e.isCycleDetected = false := by
   intro r hr e he; rw [h r hr] at he; cases he
 
+
+/-- one slice of the permutation half: **a Provide and an adjacent Decorate can be swapped** when the decorator takes
+    positional parameters only — the two calls give the same two answers (verdict, error, Info) in either order and
+    leave the very same container, so every later operation is answered identically -/
+theorem C16_provide_and_decorate_commute_partial (ctx : Ctx) (fP fD : Fn) (st : St) (iP iD sP sD : Nat) (o : ProvideOpts)
+    (cb info : Bool) (h : ∀ t ∈ (if fD.variadic then fD.ins.dropLast else fD.ins), ∃ i, t = GoT.univ i) :
+    (apiDecorate ctx fD (apiProvide ctx fP st iP sP o).1 iD sD cb info).1 =
+      (apiProvide ctx fP (apiDecorate ctx fD st iD sD cb info).1 iP sP o).1 ∧
+    (apiProvide ctx fP st iP sP o).2 = (apiProvide ctx fP (apiDecorate ctx fD st iD sD cb info).1 iP sP o).2 ∧
+    (apiDecorate ctx fD (apiProvide ctx fP st iP sP o).1 iD sD cb info).2 = (apiDecorate ctx fD st iD sD cb info).2 :=
+  provide_decorate_swap_plain ctx fP fD st iP iD sP sD o cb info h
+
+/-- ... because Provide commutes with any replacement of what Decorate registers -/
+theorem C16_provide_ignores_decorators (T : Nat → List (Key × Nat)) (ds : List DecoNode) (ctx : Ctx) (fn : Fn) (st : St)
+    (i s : Nat) (o : ProvideOpts) :
+    apiProvide ctx fn (dtr T ds st) i s o = (dtr T ds (apiProvide ctx fn st i s o).1, (apiProvide ctx fn st i s o).2) :=
+  dtr_apiProvide T ds ctx fn st i s o
+
+/-- non-vacuity (a test): a decorator `func(*T0) *T0` has positional parameters only -/
+example : ∀ t ∈ (if ({ id := 3, name := "d", nonfunc := none, ins := [.univ 10], variadic := false, outs := [.univ 10] } : Fn).variadic
+    then [] else [GoT.univ 10]), ∃ i, t = GoT.univ i := by
+  intro t ht; simp at ht; exact ⟨10, ht⟩
+
 #print axioms C16_defer_changes_nothing
+#print axioms C16_provide_and_decorate_commute_partial
+#print axioms C16_provide_ignores_decorators
 #print axioms C16_eager_always_acyclic
 #print axioms C16_resolver_ignores_flags
 #print axioms C16_invoke_checks
